@@ -100,6 +100,15 @@ func init() {
 				// MAC pads in place and overwrites the caller's message bytes (append semantics of Pad).
 				// C19 does not speak about the input buffer, so this is not compared.
 				_ = keep
+				// the tag depends on (key, message) only - not on how much caller memory lies behind the message
+				for _, bs := range []int{8, 16} {
+					for _, w := range CapWindows(raw, bs) {
+						if mm := Diff(i, m.MAC(w), st.Hex("exp")); mm != nil {
+							mm.Note = "message handed over as a slice with capacity " + itoa(cap(w)) + " (length " + itoa(len(w)) + ")"
+							return mm
+						}
+					}
+				}
 			case "write":
 				d := st.HexMut("data")
 				n, err := h.Write(d)
